@@ -505,4 +505,5 @@ pub fn run_c20(ctx: &mut Ctx) {
     if ctx.case(|| format!("C20 eq/hash sweep up to {} cells", ml)) {
         eq_hash_sweep(ctx, ml);
     }
+    crate::wl_access::giant_misc(ctx, "C20");
 }
